@@ -618,6 +618,10 @@ def finalize(ctx, tier):
             "mc_weight_sensitive", "mc_std_definition_sensitive", "closed_form_cases",
             "line_cases_agreeing"]
     missing = [k for k in need if not c.get(k, 0)]
+    # the counters are only advanced by cases that pass; with violations outside the
+    # collinear families on record they say nothing about vacuity
+    if any(":collinear" not in k and ":near-collinear" not in k for k in ctx.violation_counts):
+        return
     if missing or len(ctx.outcomes) < 100:
         ctx.violation("C14:vacuous", dict(kind="finalize"),
                       detail=dict(missing=missing, outcomes=len(ctx.outcomes)),
